@@ -100,23 +100,34 @@ Qed.
 Lemma dy_trunc_of_Z z : dy_trunc (dy_of_Z z) = z.
 Proof. unfold dy_trunc, dy_of_Z. cbn. lia. Qed.
 
-Lemma gen_quantise_scale_eq m e : GenScaling.quantise_scale (Dy m e) = q_scale m e.
+Lemma gen_sig_eq m e :
+  dy_trunc (GenScaling.round_away_zero (dy_mul_int (dy_frexp_sig (Dy m e)) (2 ^ 31))) = q_mult m.
 Proof.
-  unfold GenScaling.quantise_scale, q_scale, q_exp, q_mult, shift_ok, dy_frexp_sig, dy_frexp_exp, dy_mul_int.
-  cbn [dm de]. rewrite !shiftl_1_pow. change (2 ^ 6) with 64.
+  unfold q_mult, dy_frexp_sig, dy_mul_int. cbn [dm de].
   destruct (Z.eqb_spec m 0) as [->|Hm].
   - vm_compute. reflexivity.
   - cbn [dm de]. destruct (Z.eqb_spec (Z.abs m) 0); [lia|].
     pose proof (Z.log2_nonneg (Z.abs m)) as HL.
-    replace ((e + Z.log2 (Z.abs m) + 1 - 31) * - (1)) with (31 - (e + Z.log2 (Z.abs m) + 1)) by lia.
     destruct (Z.lt_trichotomy m 0) as [Hneg|[H0|Hpos]]; [|lia|].
     + rewrite raz_neg by nia. rewrite dy_trunc_of_Z.
       rewrite (Z.abs_neq m) by lia. rewrite (Z.sgn_neg m) by lia.
-      replace (- (m * 2 ^ 31)) with (- m * 2 ^ 31) by lia.
-      destruct (_ && _); cbn [negb]; [f_equal; lia | reflexivity].
+      replace (- (m * 2 ^ 31)) with (- m * 2 ^ 31) by lia. lia.
     + rewrite raz_nonneg by nia. rewrite dy_trunc_of_Z.
-      rewrite (Z.abs_eq m) by lia. rewrite (Z.sgn_pos m) by lia.
-      destruct (_ && _); cbn [negb]; [f_equal; lia | reflexivity].
+      rewrite (Z.abs_eq m) by lia. rewrite (Z.sgn_pos m) by lia. lia.
+Qed.
+
+Lemma gen_exp_eq m e : dy_frexp_exp (Dy m e) = q_exp m e.
+Proof. reflexivity. Qed.
+
+Lemma gen_quantise_scale_eq m e : GenScaling.quantise_scale (Dy m e) = q_scale m e.
+Proof.
+  unfold GenScaling.quantise_scale. cbv zeta. rewrite !shiftl_1_pow.
+  rewrite gen_sig_eq, gen_exp_eq. unfold q_scale, q_renorm, shift_ok. change (2 ^ 6) with 64.
+  destruct (Z.eqb_spec (q_mult m) (2 ^ 31)) as [Eq|Ne].
+  - replace ((q_exp m e + 1 - 31) * - (1)) with (31 - (q_exp m e + 1)) by lia.
+    destruct (_ && _); reflexivity.
+  - replace ((q_exp m e - 31) * - (1)) with (31 - q_exp m e) by lia.
+    destruct (_ && _); reflexivity.
 Qed.
 
 Lemma gen_reduced_quantise_scale_eq m e : GenScaling.reduced_quantise_scale (Dy m e) = r_scale m e.
@@ -135,52 +146,87 @@ Proof.
 Qed.
 
 (* ---------- quantise_scale: accuracy, range, degradation ---------- *)
+(* rnd m = 1 when the significand rounds up to 2^31 and is renormalised; qn m the multiplier returned *)
+Definition rnd (m : Z) : Z := if qpos m =? 2 ^ 31 then 1 else 0.
+Definition qn (m : Z) : Z := if qpos m =? 2 ^ 31 then 2 ^ 30 else qpos m.
+(* the shift of the code for the positive dyadic m * 2^e *)
+Definition vshift (m e : Z) : Z := 31 - (e + Z.log2 m + 1) - rnd m.
+
+Lemma qn_spec m :
+  0 < m -> 2 ^ 30 <= qn m < 2 ^ 31 /\ qn m * 2 ^ rnd m = qpos m /\ 0 <= rnd m <= 1.
+Proof.
+  intros H. pose proof (qpos_spec m H) as [A _]. unfold qn, rnd.
+  destruct (Z.eqb_spec (qpos m) (2 ^ 31)) as [E|E].
+  - rewrite E. change (2 ^ 1) with 2. change (2 ^ 30) with 1073741824. change (2 ^ 31) with 2147483648. lia.
+  - change (2 ^ 0) with 1. lia.
+Qed.
+
 Lemma q_scale_pos m e :
   0 < m ->
-  q_scale m e = if shift_ok (31 - (e + Z.log2 m + 1)) then (qpos m, 31 - (e + Z.log2 m + 1)) else (0, 16).
+  q_scale m e = if shift_ok (vshift m e) then (qn m, vshift m e) else (0, 16).
 Proof.
-  intros H. unfold q_scale, q_exp. destruct (Z.eqb_spec m 0); [lia|].
-  rewrite (Z.abs_eq m) by lia. rewrite q_mult_pos by lia. reflexivity.
+  intros H. unfold q_scale, q_exp, q_renorm, vshift, qn, rnd. destruct (Z.eqb_spec m 0); [lia|].
+  rewrite (Z.abs_eq m) by lia. rewrite q_mult_pos by lia.
+  destruct (Z.eqb_spec (qpos m) (2 ^ 31)) as [E|E].
+  - rewrite E. change (2 ^ 31 / 2) with (2 ^ 30).
+    replace (31 - (e + Z.log2 m + 1 + 1)) with (31 - (e + Z.log2 m + 1) - 1) by lia. reflexivity.
+  - replace (31 - (e + Z.log2 m + 1) - 0) with (31 - (e + Z.log2 m + 1)) by lia. reflexivity.
 Qed.
 
 Lemma shift_ok_spec s : shift_ok s = true <-> 0 <= s <= 63.
 Proof. unfold shift_ok. rewrite andb_true_iff, Z.leb_le, Z.ltb_lt. lia. Qed.
 
+(* In range (the shift the code derives lies in [0, 63]): the pair (q, s) denotes q * 2^-s; multiplied by
+   2^(s + rnd + L + 1) that is q * 2^(L+1+rnd) against m * 2^31 for the scale. *)
 Lemma quantise_scale_accurate_lemma m e :
   0 < m ->
   let L := Z.log2 m in
-  let s := 31 - (e + L + 1) in
+  let s := vshift m e in
   0 <= s <= 63 ->
   exists q, GenScaling.quantise_scale (Dy m e) = (q, s) /\
-            2 ^ 30 <= q <= 2 ^ 31 /\
-            Z.abs (q * 2 ^ (L + 1) - m * 2 ^ 31) <= 2 ^ L /\ 2 ^ L <= m.
+            2 ^ 30 <= q <= 2 ^ 31 /\ q < 2 ^ 31 /\
+            Z.abs (q * 2 ^ (L + 1 + rnd m) - m * 2 ^ 31) <= 2 ^ L /\ 2 ^ L <= m.
 Proof.
-  intros Hm L s Hs. exists (qpos m). rewrite gen_quantise_scale_eq, q_scale_pos by lia.
-  fold L. fold s. destruct (shift_ok s) eqn:E.
-  - pose proof (qpos_spec m Hm) as [A B]. pose proof (log2_bounds m Hm). fold L in B. repeat split; try lia.
-    subst L; lia.
+  intros Hm L s Hs. exists (qn m). rewrite gen_quantise_scale_eq, q_scale_pos by lia.
+  fold s. destruct (shift_ok s) eqn:E.
+  - pose proof (qpos_spec m Hm) as [A B]. pose proof (log2_bounds m Hm). fold L in B.
+    pose proof (qn_spec m Hm) as [Q1 [Q2 Q3]]. pose proof (Z.log2_nonneg m).
+    repeat split; try lia; [|subst L; lia].
+    rewrite Z.pow_add_r by (subst L; lia).
+    replace (qn m * (2 ^ (L + 1) * 2 ^ rnd m)) with (qn m * 2 ^ rnd m * 2 ^ (L + 1)) by ring.
+    rewrite Q2. exact B.
   - apply shift_ok_spec in Hs. congruence.
 Qed.
 
 Lemma quantise_scale_degrades_lemma m e :
   0 < m ->
-  let s := 31 - (e + Z.log2 m + 1) in
-  ~ (0 <= s <= 63) -> GenScaling.quantise_scale (Dy m e) = (0, 16).
+  ~ (0 <= vshift m e <= 63) -> GenScaling.quantise_scale (Dy m e) = (0, 16).
 Proof.
-  intros Hm s Hs. rewrite gen_quantise_scale_eq, q_scale_pos by lia. fold s.
-  destruct (shift_ok s) eqn:E; [|reflexivity]. apply shift_ok_spec in E. contradiction.
+  intros Hm Hs. rewrite gen_quantise_scale_eq, q_scale_pos by lia.
+  destruct (shift_ok (vshift m e)) eqn:E; [|reflexivity]. apply shift_ok_spec in E. contradiction.
 Qed.
 
 (* whatever the input, the pair fits the 32-bit scale and 6-bit shift fields: nothing wraps *)
 Lemma quantise_scale_fits_lemma m e :
   0 < m ->
-  0 <= fst (GenScaling.quantise_scale (Dy m e)) <= 2 ^ 31 /\
+  0 <= fst (GenScaling.quantise_scale (Dy m e)) < 2 ^ 31 /\
   0 <= snd (GenScaling.quantise_scale (Dy m e)) <= 63.
 Proof.
   intros Hm. rewrite gen_quantise_scale_eq, q_scale_pos by lia.
   destruct (shift_ok _) eqn:E; cbn [fst snd].
-  - apply shift_ok_spec in E. pose proof (qpos_spec m Hm). lia.
+  - apply shift_ok_spec in E. pose proof (qn_spec m Hm). lia.
   - change (2 ^ 31) with 2147483648. lia.
+Qed.
+
+(* the pair is degraded exactly when its multiplier is zero *)
+Lemma quantise_scale_nonzero_lemma m e q s :
+  0 < m -> GenScaling.quantise_scale (Dy m e) = (q, s) -> q <> 0 ->
+  s = vshift m e /\ q = qn m /\ 0 <= s <= 63.
+Proof.
+  intros Hm. rewrite gen_quantise_scale_eq, q_scale_pos by lia.
+  destruct (shift_ok _) eqn:E; intros H Hq; injection H as <- <-.
+  - apply shift_ok_spec in E. auto.
+  - contradiction.
 Qed.
 
 (* ---------- the TFLite reference ---------- *)
@@ -199,59 +245,73 @@ Qed.
 Lemma tfl_pos m e :
   0 < m ->
   tfl_quantize_multiplier (Dy m e) =
-    let E := e + Z.log2 m + 1 in
-    let '(q, E') := if qpos m =? 2 ^ 31 then (2 ^ 30, E + 1) else (qpos m, E) in
-    if E' <? -31 then (0, 0) else (q, E').
+    if 31 - vshift m e <? -31 then (0, 0) else (qn m, 31 - vshift m e).
 Proof.
   intros Hm. unfold tfl_quantize_multiplier, dy_frexp_sig, dy_frexp_exp, dy_mul_int. cbn [dm de].
   destruct (Z.eqb_spec m 0); [lia|]. cbn [dm de]. rewrite (Z.abs_eq m) by lia.
   pose proof (Z.log2_nonneg m).
-  rewrite round_half_away_pos by nia. fold (qpos m).
-  destruct (Z.eqb_spec (qpos m) (2 ^ 31)) as [->|]; reflexivity.
+  rewrite round_half_away_pos by nia. fold (qpos m). unfold vshift, qn, rnd.
+  destruct (Z.eqb_spec (qpos m) (2 ^ 31)) as [->|].
+  - change (2 ^ 31 / 2) with (2 ^ 30).
+    replace (31 - (31 - (e + Z.log2 m + 1) - 1)) with (e + Z.log2 m + 1 + 1) by lia. reflexivity.
+  - replace (31 - (31 - (e + Z.log2 m + 1) - 0)) with (e + Z.log2 m + 1) by lia. reflexivity.
 Qed.
 
+(* Reference equality, shift in [0, 62]: the SAME pair, the reference's left shift being 31 - s *)
 Lemma quantise_scale_eq_tflite_lemma m e :
   0 < m ->
-  let s := 31 - (e + Z.log2 m + 1) in
+  let s := vshift m e in
   0 <= s <= 62 ->
-  exists qv qt st,
-    GenScaling.quantise_scale (Dy m e) = (qv, s) /\ tfl_quantize_multiplier (Dy m e) = (qt, st) /\
-    ((qt = qv /\ st = 31 - s) \/ (qv = 2 ^ 31 /\ qt = 2 ^ 30 /\ st = 32 - s)) /\
-    (* both denote the same rational:  qv * 2^-s = qt * 2^(st-31) *)
-    qv * 2 ^ 31 = qt * 2 ^ (st + s).
+  exists q,
+    GenScaling.quantise_scale (Dy m e) = (q, s) /\ tfl_quantize_multiplier (Dy m e) = (q, 31 - s) /\
+    2 ^ 30 <= q < 2 ^ 31.
 Proof.
   intros Hm s Hs. rewrite gen_quantise_scale_eq, q_scale_pos, tfl_pos by lia. fold s.
   assert (shift_ok s = true) as -> by (apply shift_ok_spec; lia).
-  cbv zeta. destruct (Z.eqb_spec (qpos m) (2 ^ 31)) as [Eq|Ne].
-  - destruct (Z.ltb_spec (e + Z.log2 m + 1 + 1) (-31)); [lia|].
-    exists (qpos m), (2 ^ 30), (e + Z.log2 m + 1 + 1). repeat split.
-    + right. repeat split; [assumption | lia].
-    + rewrite Eq. replace (e + Z.log2 m + 1 + 1 + s) with 32 by lia. reflexivity.
-  - destruct (Z.ltb_spec (e + Z.log2 m + 1) (-31)); [lia|].
-    exists (qpos m), (qpos m), (e + Z.log2 m + 1). repeat split.
-    + left. split; [reflexivity | lia].
-    + replace (e + Z.log2 m + 1 + s) with 31 by lia. reflexivity.
+  destruct (Z.ltb_spec (31 - s) (-31)); [lia|].
+  exists (qn m). pose proof (qn_spec m Hm). repeat split; lia.
 Qed.
 
-(* at shift 63 (2^-33 <= scale < 2^-32) the reference flushes to zero, Vela keeps an accurate pair *)
+(* the form other developments compose with: driven by the result of the code *)
+Lemma quantise_scale_is_tflite_lemma m e q s :
+  0 < m -> GenScaling.quantise_scale (Dy m e) = (q, s) -> q <> 0 -> 0 <= s <= 62 ->
+  tfl_quantize_multiplier (Dy m e) = (q, 31 - s) /\ 2 ^ 30 <= q < 2 ^ 31.
+Proof.
+  intros Hm H Hq Hs. destruct (quantise_scale_nonzero_lemma m e q s Hm H Hq) as [-> [-> _]].
+  destruct (quantise_scale_eq_tflite_lemma m e Hm Hs) as [q' [E1 [E2 B]]].
+  rewrite gen_quantise_scale_eq, q_scale_pos in E1 by lia.
+  assert (shift_ok (vshift m e) = true) as K by (apply shift_ok_spec; lia). rewrite K in E1.
+  injection E1 as <-. split; assumption.
+Qed.
+
+(* ... and driven by the input: any scale whose un-renormalised shift 31 - (e+L+1) lies in [1, 62] *)
+Lemma quantise_scale_is_tflite_in_range_lemma m e :
+  0 < m ->
+  let s0 := 31 - (e + Z.log2 m + 1) in
+  1 <= s0 <= 62 ->
+  exists q s, GenScaling.quantise_scale (Dy m e) = (q, s) /\ s0 - 1 <= s <= s0 /\
+              tfl_quantize_multiplier (Dy m e) = (q, 31 - s) /\ 2 ^ 30 <= q < 2 ^ 31.
+Proof.
+  intros Hm s0 Hs. pose proof (qn_spec m Hm) as [_ [_ R]].
+  assert (vshift m e = s0 - rnd m) as V by reflexivity.
+  destruct (quantise_scale_eq_tflite_lemma m e Hm ltac:(lia)) as [q [E1 [E2 B]]].
+  exists q, (vshift m e). repeat split; try assumption; lia.
+Qed.
+
+(* at shift 63 the reference flushes to zero, Vela keeps an accurate pair *)
 Lemma quantise_scale_tflite_shift63_lemma m e :
   0 < m ->
-  31 - (e + Z.log2 m + 1) = 63 ->
-  GenScaling.quantise_scale (Dy m e) = (qpos m, 63) /\ 2 ^ 30 <= qpos m <= 2 ^ 31 /\
-  (qpos m < 2 ^ 31 -> tfl_quantize_multiplier (Dy m e) = (0, 0)) /\
-  (qpos m = 2 ^ 31 -> tfl_quantize_multiplier (Dy m e) = (2 ^ 30, -31)).
+  vshift m e = 63 ->
+  GenScaling.quantise_scale (Dy m e) = (qn m, 63) /\ 2 ^ 30 <= qn m < 2 ^ 31 /\
+  tfl_quantize_multiplier (Dy m e) = (0, 0).
 Proof.
   intros Hm Hs. rewrite gen_quantise_scale_eq, q_scale_pos, tfl_pos by lia. rewrite Hs.
-  pose proof (qpos_spec m Hm) as [A _]. repeat split; try lia.
-  - intros Hq. cbv zeta. destruct (Z.eqb_spec (qpos m) (2 ^ 31)); [lia|].
-    destruct (Z.ltb_spec (e + Z.log2 m + 1) (-31)); [reflexivity|lia].
-  - intros Hq. cbv zeta. destruct (Z.eqb_spec (qpos m) (2 ^ 31)); [|lia].
-    destruct (Z.ltb_spec (e + Z.log2 m + 1 + 1) (-31)); [lia|]. f_equal. lia.
+  pose proof (qn_spec m Hm) as [A _]. repeat split; lia.
 Qed.
 
 (* ---------- reduced_quantise_scale ---------- *)
 Lemma r_mult_spec q :
-  2 ^ 30 <= q <= 2 ^ 31 ->
+  2 ^ 30 <= q < 2 ^ 31 ->
   2 ^ 14 <= r_mult q <= 32767 /\
   (q < 32767 * 65536 -> Z.abs (r_mult q * 65536 - q) <= 32768) /\
   (32767 * 65536 <= q -> r_mult q = 32767).
@@ -266,65 +326,75 @@ Qed.
 Lemma reduced_quantise_scale_accurate_lemma m e :
   0 < m ->
   let L := Z.log2 m in
-  let s := 31 - (e + L + 1) in
+  let s := vshift m e in
   0 <= s <= 63 ->
   exists rm, GenScaling.reduced_quantise_scale (Dy m e) = (rm, s - 16) /\
              2 ^ 14 <= rm <= 32767 /\
-             (* the pair denotes rm * 2^-(s-16); scaled by 2^(s+L+1) that is rm * 2^(L+17) against
+             (* the pair denotes rm * 2^-(s-16); scaled by 2^(s+rnd+L+1) that is rm * 2^(L+17+rnd) against
                 m * 2^31.  True bound: relative error <= 2^-15 + 2^-31 *)
-             Z.abs (rm * 2 ^ (L + 17) - m * 2 ^ 31) * 2 ^ 31 <= (2 ^ 16 + 1) * (m * 2 ^ 31) /\
+             Z.abs (rm * 2 ^ (L + 17 + rnd m) - m * 2 ^ 31) * 2 ^ 31 <= (2 ^ 16 + 1) * (m * 2 ^ 31) /\
              (* hence the 2^-14 of the property text *)
-             Z.abs (rm * 2 ^ (L + 17) - m * 2 ^ 31) * 2 ^ 14 <= m * 2 ^ 31.
+             Z.abs (rm * 2 ^ (L + 17 + rnd m) - m * 2 ^ 31) * 2 ^ 14 <= m * 2 ^ 31.
 Proof.
   intros Hm L s Hs. rewrite gen_reduced_quantise_scale_eq. unfold r_scale.
-  rewrite q_scale_pos by lia. fold L. fold s.
+  rewrite q_scale_pos by lia. fold s.
   assert (shift_ok s = true) as E by (apply shift_ok_spec; lia). rewrite E, E.
-  exists (r_mult (qpos m)). split; [reflexivity|].
+  exists (r_mult (qn m)). split; [reflexivity|].
   pose proof (qpos_spec m Hm) as [A B]. fold L in B.
-  pose proof (r_mult_spec (qpos m) A) as [R1 [R2 R3]].
+  pose proof (qn_spec m Hm) as [Q1 [Q2 Q3]].
+  pose proof (r_mult_spec (qn m) Q1) as [R1 [R2 R3]].
   pose proof (log2_bounds m Hm) as [B1 B2]. fold L in B1, B2.
   pose proof (Z.log2_nonneg m) as HL. fold L in HL.
   split; [exact R1|].
-  replace (L + 17) with (L + 1 + 16) by lia. rewrite Z.pow_add_r by lia.
+  replace (L + 17 + rnd m) with (rnd m + (L + 1) + 16) by lia. rewrite !Z.pow_add_r by lia.
   rewrite pow2_succ in * by lia.
   set (Bq := 2 ^ L) in *. assert (0 < Bq) by (apply pow2_pos; lia).
   change (2 ^ 31) with 2147483648 in *. change (2 ^ 30) with 1073741824 in *.
   change (2 ^ 16) with 65536. change (2 ^ 14) with 16384 in *.
-  set (q := qpos m) in *. set (rm := r_mult q) in *.
-  assert (Z.abs (rm * (2 * Bq * 65536) - m * 2147483648) * 2147483648 <= 65537 * (m * 2147483648)) as Main.
-  { destruct (Z.lt_ge_cases q (32767 * 65536)) as [Hlt|Hge].
-    - specialize (R2 Hlt). apply Z.abs_le in R2. apply Z.abs_le in B.
-      assert (Z.abs (rm * (2 * Bq * 65536) - m * 2147483648) <= 65537 * Bq) by (apply Z.abs_le; nia).
-      nia.
-    - specialize (R3 Hge). rewrite R3. apply Z.abs_le in B.
-      destruct (Z.le_ge_cases 0 (32767 * (2 * Bq * 65536) - m * 2147483648)).
-      + rewrite Z.abs_eq by lia. nia.
-      + rewrite Z.abs_neq by lia. nia. }
-  split; [exact Main|]. nia.
+  set (q := qpos m) in *. set (q' := qn m) in *. set (rm := r_mult q') in *.
+  set (R := 2 ^ rnd m) in *.
+  assert (HR : R = 1 \/ (R = 2 /\ q' = 1073741824)).
+  { unfold R, q', qn, rnd. destruct (Z.eqb_spec (qpos m) (2 ^ 31)); [right; split; reflexivity | left; reflexivity]. }
+  assert (Z.abs (rm * (R * (2 * Bq) * 65536) - m * 2147483648) * 2147483648 <= 65537 * (m * 2147483648)) as Main.
+  { apply Z.abs_le in B.
+    destruct HR as [HR|[HR Hq']].
+    - rewrite HR in *. assert (q' = q) by lia.
+      destruct (Z.lt_ge_cases q' (32767 * 65536)) as [Hlt|Hge].
+      + specialize (R2 Hlt). apply Z.abs_le in R2.
+        assert (Z.abs (rm * (1 * (2 * Bq) * 65536) - m * 2147483648) <= 65537 * Bq) by (apply Z.abs_le; nia).
+        nia.
+      + specialize (R3 Hge). rewrite R3.
+        destruct (Z.le_ge_cases 0 (32767 * (1 * (2 * Bq) * 65536) - m * 2147483648)).
+        * rewrite Z.abs_eq by lia. nia.
+        * rewrite Z.abs_neq by lia. nia.
+    - rewrite HR in *. assert (rm = 16384) as -> by (unfold rm; rewrite Hq'; reflexivity).
+      assert (q = 2147483648) by lia.
+      assert (Z.abs (16384 * (2 * (2 * Bq) * 65536) - m * 2147483648) <= Bq) by (apply Z.abs_le; nia).
+      nia. }
+  split; lia.
 Qed.
 
 (* out of range the multiplier is zero; the code's own second range test sees quantise_scale's
    replacement shift 16 and therefore never fires: the pair is (0, 0), not (0, 16) *)
 Lemma reduced_quantise_scale_degrades_lemma m e :
   0 < m ->
-  let s := 31 - (e + Z.log2 m + 1) in
-  ~ (0 <= s <= 63) -> GenScaling.reduced_quantise_scale (Dy m e) = (0, 0).
+  ~ (0 <= vshift m e <= 63) -> GenScaling.reduced_quantise_scale (Dy m e) = (0, 0).
 Proof.
-  intros Hm s Hs. rewrite gen_reduced_quantise_scale_eq. unfold r_scale.
-  rewrite q_scale_pos by lia. fold s.
-  destruct (shift_ok s) eqn:E; [apply shift_ok_spec in E; contradiction|]. reflexivity.
+  intros Hm Hs. rewrite gen_reduced_quantise_scale_eq. unfold r_scale.
+  rewrite q_scale_pos by lia.
+  destruct (shift_ok (vshift m e)) eqn:E; [apply shift_ok_spec in E; contradiction|]. reflexivity.
 Qed.
 
-(* the reduced shift: in [-16, 47] always; non-negative exactly when the scale is below 2^15 *)
+(* the reduced shift: in [-16, 47] always; non-negative exactly when the code's shift is at least 16 *)
 Lemma reduced_quantise_scale_shift_lemma m e :
   0 < m ->
   -16 <= snd (GenScaling.reduced_quantise_scale (Dy m e)) <= 47 /\
-  (0 <= 31 - (e + Z.log2 m + 1) <= 63 ->
-   (0 <= snd (GenScaling.reduced_quantise_scale (Dy m e)) <-> e + Z.log2 m + 1 <= 15)).
+  (0 <= vshift m e <= 63 ->
+   (0 <= snd (GenScaling.reduced_quantise_scale (Dy m e)) <-> 16 <= vshift m e)).
 Proof.
   intros Hm. rewrite gen_reduced_quantise_scale_eq. unfold r_scale.
   rewrite q_scale_pos by lia.
-  destruct (shift_ok (31 - (e + Z.log2 m + 1))) eqn:E.
+  destruct (shift_ok (vshift m e)) eqn:E.
   - rewrite E. cbn [snd]. apply shift_ok_spec in E. lia.
   - cbn [snd]. split; [cbn; lia|]. intros H. apply shift_ok_spec in H. congruence.
 Qed.
@@ -332,26 +402,30 @@ Qed.
 (* ---------- instances (the hypotheses of the lemmas above are satisfiable) ---------- *)
 (* 0.1 = 0x1.999999999999ap-4 = 7205759403792794 * 2^-56 *)
 Example quantise_scale_ex_tenth :
-  0 <= 31 - (-56 + Z.log2 7205759403792794 + 1) <= 62 /\
+  0 <= vshift 7205759403792794 (-56) <= 62 /\
   GenScaling.quantise_scale (Dy 7205759403792794 (-56)) = (1717986918, 34) /\
   tfl_quantize_multiplier (Dy 7205759403792794 (-56)) = (1717986918, -3) /\
   GenScaling.reduced_quantise_scale (Dy 7205759403792794 (-56)) = (26214, 18).
 Proof. vm_compute. repeat split; congruence. Qed.
 
-(* the largest double below 1: the significand rounds up to 2^31; the reference renormalises *)
+(* the largest double below 1: the significand rounds up to 2^31 and is renormalised, as the reference does *)
 Example quantise_scale_ex_renorm :
-  GenScaling.quantise_scale (Dy (2 ^ 53 - 1) (-53)) = (2 ^ 31, 31) /\
+  rnd (2 ^ 53 - 1) = 1 /\ vshift (2 ^ 53 - 1) (-53) = 30 /\
+  GenScaling.quantise_scale (Dy (2 ^ 53 - 1) (-53)) = (2 ^ 30, 30) /\
   tfl_quantize_multiplier (Dy (2 ^ 53 - 1) (-53)) = (2 ^ 30, 1).
-Proof. vm_compute. split; reflexivity. Qed.
+Proof. vm_compute. repeat split; reflexivity. Qed.
 
-(* 2^40 and 2^-34 are outside the range, 2^-33 is the last scale inside (shift 63) *)
+(* 2^40 and 2^-34 are outside the range, 2^-33 is inside (shift 63); the largest double below 2^31
+   renormalises to shift -1 and degrades; the largest double below 2^-33 renormalises into the range *)
 Example quantise_scale_ex_degrade :
-  ~ (0 <= 31 - (40 + Z.log2 1 + 1) <= 63) /\ GenScaling.quantise_scale (Dy 1 40) = (0, 16) /\
+  ~ (0 <= vshift 1 40 <= 63) /\ GenScaling.quantise_scale (Dy 1 40) = (0, 16) /\
   GenScaling.quantise_scale (Dy 1 (-34)) = (0, 16) /\
   GenScaling.reduced_quantise_scale (Dy 1 40) = (0, 0) /\
-  31 - (-33 + Z.log2 1 + 1) = 63 /\
-  GenScaling.quantise_scale (Dy 1 (-33)) = (2 ^ 30, 63) /\ tfl_quantize_multiplier (Dy 1 (-33)) = (0, 0).
-Proof. split; [change (Z.log2 1) with 0; lia|]. vm_compute. repeat split; congruence. Qed.
+  vshift 1 (-33) = 63 /\
+  GenScaling.quantise_scale (Dy 1 (-33)) = (2 ^ 30, 63) /\ tfl_quantize_multiplier (Dy 1 (-33)) = (0, 0) /\
+  vshift (2 ^ 53 - 1) (-22) = -1 /\ GenScaling.quantise_scale (Dy (2 ^ 53 - 1) (-22)) = (0, 16) /\
+  vshift (2 ^ 53 - 1) (-86) = 63 /\ GenScaling.quantise_scale (Dy (2 ^ 53 - 1) (-86)) = (2 ^ 30, 63).
+Proof. split; [intros [H1 _]; vm_compute in H1; apply H1; reflexivity|]. vm_compute. repeat split; congruence. Qed.
 
 (* 40000.0 = 625 * 2^6 >= 2^15: the reduced shift is negative *)
 Example reduced_quantise_scale_ex_negative_shift :
